@@ -55,6 +55,7 @@ structure MState where
   cfg : Cfg
   lats : List (Nat × LatM) := []
   planes : List (Nat × Nat) := []      -- session uuid ↦ largest ground-plane count reported so far (C20)
+  regions : List ((Nat × String) × String × Nat) := []   -- (session uuid, box) ↦ (answer, asker) since the session's last accepted sample (C20)
   sessions : List MSess := []
   ev : Nat := 0
   viol : Array Violation := #[]
@@ -511,6 +512,30 @@ def MState.step (m : MState) (st : IStep) : MState :=
               let m := if n < last then m.bad "C20" "samples-lost" s!"session {s.uuid} reported {last} planes earlier, now {n}" else m
               { m with planes := (m.planes.filter fun (q : Nat × Nat) => q.1 != s.uuid) ++ [(s.uuid, max n last)] }
             | none => m
+          | _ => m) m
+      | none => m
+    | _ => m
+  -- C20 sharing: the planes are the session's - between two samples every member asking for the same region gets the
+  -- same answer, whoever asks
+  let m := match st.ev with
+    | .handle c (some (.quadSample _)) _ =>
+      match m0.whereIs c with
+      | some (s, _) => { m with regions := m.regions.filter fun (q : (Nat × String) × String × Nat) => q.1.1 != s.uuid }
+      | none => m
+    | .handle c (some (.region rid box)) _ =>
+      match m0.whereIs c with
+      | some (s, _) =>
+        st.extra.foldl (fun (m : MState) (x : String) =>
+          match x.splitOn " " with
+          | "region" :: r :: rest =>
+            if r.toNat? != some rid then m else
+            let ans := " ".intercalate rest
+            match m.regions.find? fun (q : (Nat × String) × String × Nat) => q.1 == (s.uuid, box) with
+            | some q =>
+              if q.2.1 == ans then m
+              else m.bad "C20" "members-see-different-planes"
+                s!"session {s.uuid}, region {box}: connection {q.2.2} was answered [{q.2.1}], connection {c} [{ans}], with no sample accepted in between"
+            | none => { m with regions := m.regions ++ [((s.uuid, box), ans, c)] }
           | _ => m) m
       | none => m
     | _ => m
